@@ -15,8 +15,11 @@ BUILDS = [("c19_dns", "asan"), ("c19_fuzz", "fuzz")]
 TYPED_IDX = {k: 4 + i for i, k in enumerate(g.TYPED_ORDER)}   # position in the brief count vector
 
 # CPU-time bound for one parse under asan: generous constant + per-byte slope (a linear decoder needs ~0.05 us/byte)
+_BOUND_CONST_NS = int(os.environ.get("VF_C19_TIME_BOUND_CONST_NS", "5000000"))   # override only to exercise the re-run path
+
+
 def time_bound_ns(n):
-    return 5_000_000 + 20_000 * n
+    return _BOUND_CONST_NS + 20_000 * n
 
 
 class Acc:
@@ -245,9 +248,14 @@ def decode_shard(job):
         # time-bound candidates: re-run each once in isolation; only a reproduced excess counts
         for b, cls, n in slow[:8]:
             inp, outp = os.path.join(tmp, tag + ".slow.bin"), os.path.join(tmp, tag + ".slow.jsonl")
-            g.write_batch(inp, [(b, 2)])
+            # the isolated process parses the input SIX times and the verdict uses the FASTEST of the last five: the first
+            # parse of a fresh (sanitizer) process pays one-off costs — the first C++ exception alone initialises the unwinder,
+            # 100+ ms of CPU on a slow VM — and a noisy neighbour can inflate any single measurement; a decoder that is
+            # genuinely superlinear on this input is slow every time
+            g.write_batch(inp, [(b, 2)] * 6)
             r2 = vf.run_harness(binary, ["--mode", "decode", "--in", inp, "--out", outp, "--hangcpums", 60000], timeout=600, out_file=outp)
-            n2 = max([x.get("ns", 0) for x in r2.records if "i" in x] + [0])
+            reps = [x.get("ns", 0) for x in r2.records if "i" in x and x.get("i", 0) >= 1]
+            n2 = min(reps) if len(reps) >= 3 else 0
             for p in (inp, outp):
                 try:
                     os.unlink(p)
@@ -485,8 +493,19 @@ def replay(ctx, path):
         key = rp.get("key", "")
         wire = bytes.fromhex(d["hex"])
         inp, outp = os.path.join(ctx.tmp, "replay.bin"), os.path.join(ctx.tmp, "replay.jsonl")
-        g.write_batch(inp, [(wire, 0)])
+        timing = "superlinear" in key
+        g.write_batch(inp, [(wire, 0)] * (6 if timing else 1))
         rr = vf.run_harness(binary, ["--mode", "decode", "--in", inp, "--out", outp], timeout=300, out_file=outp)
+        if timing:
+            # same discipline as the check itself: fastest of the last five parses in one process (the first pays one-off costs)
+            reps = [x.get("ns", 0) for x in rr.records if "i" in x and x.get("i", 0) >= 1]
+            fastest = min(reps) if len(reps) >= 3 else 0
+            print(json.dumps(dict(parses=len(reps) + 1, fastest_of_last_five_ns=fastest, bound_ns=time_bound_ns(len(wire)))))
+            if fastest > time_bound_ns(len(wire)):
+                ctx.violation(key, "reproduced: fastest of five warm parses still exceeds the linear bound", dict(hex=d["hex"], ns=fastest))
+            ctx.case("replay:" + key, dict(key=key))
+            ctx.rule = "replay of one recorded input (timing: fastest of five warm parses)"
+            return
         for r in rr.records:
             print(json.dumps({k: (v if k != "stderr" else v[:2000]) for k, v in r.items()})[:4000])
             if r.get("t") in ("crash", "hang"):
